@@ -273,6 +273,10 @@ def evaluate(case, verbose=False):
                 viol.append(('attr:%s' % k, '%s: %s=%r, expected %r (baseline %r)' % (
                     label, k, A['attrs'].get(k), x[1], B['attrs'].get(k)),
                     mclass(A['attrs'].get(k), x[1], B['attrs'].get(k))))
+        # allow-none is the deprecated mirror of nullable/optional: one report per failure
+        modes = set((v[0], v[2]) for v in viol if len(v) > 2 and v[1].startswith(label + ':'))
+        viol[:] = [v for v in viol if not (v[0] == 'attr:allow-none' and v[1].startswith(label + ':') and
+                                           (('attr:nullable', v[2]) in modes or ('attr:optional', v[2]) in modes))]
         # <attribute> children, <doc>
         x = resolve(exp.attributes)
         if x is not None and sorted(A['attributes']) != sorted(x[1]):
@@ -423,10 +427,20 @@ def callable_class(c):
     return 'func' if c in MD.FUNCLIKE else c
 
 
+def canon_name(a):
+    """Coarser class for clauses that do not depend on the option value (missing / spurious warning,
+    crash): annotation name only, except for the special instances that are defects of their own."""
+    n, o = G.parse_ann(a)
+    if not MD.well_formed(n, o) or 'FooNoSuch' in a or 'nosuch' in a or 'length=self' in a or n == 'not':
+        return canon(a)
+    return n + ' *' if o or n in ('closure', 'array') else n
+
+
 def vkey(rule, anns, callable_, mcls):
     """Partial key; run() appends the set of type kinds on which this (clause, annotations, callable class,
     failure mode) fails, so that a change of the failing set is a different key."""
-    return '%s|%s|%s|%s' % (rule, '+'.join(canon(a) for a in anns), callable_class(callable_), mcls or '-')
+    cf = canon_name if rule.split(':')[0] in ('warn-missing', 'warn-spurious', 'crash') else canon
+    return '%s|%s|%s|%s' % (rule, '+'.join(cf(a) for a in anns), callable_class(callable_), mcls or '-')
 
 
 def _work(chunk):
@@ -515,7 +529,10 @@ def run(ctx):
         _, desc, case = viol[key]['best']
         where = sorted(viol[key]['where'])
         kinds = sorted(set(w.split('.')[2] for w in where), key=G.KIND_ORDER.index)
-        ctx.violation('%s|%s' % (key, ','.join(kinds)),
+        # site class: the failing type kinds when they are few (the defect is about those kinds), else
+        # only how many of the explored kinds fail (mechanism independent of the kind)
+        kclass = ','.join(kinds) if len(kinds) <= 3 else '%d-kinds' % len(kinds)
+        ctx.violation('%s|%s' % (key, kclass),
                       '%s  [fails on %d site(s): %s%s]' % (desc, len(where), ' '.join(where[:8]),
                                                           ' ...' if len(where) > 8 else ''), case)
     ctx.max_reports = 300
